@@ -7,7 +7,11 @@ class ZipDumper(FileDumper):
 
     def __init__(self, out_file, **options):
         super(ZipDumper, self).__init__(options)
-        self.out_file = open(out_file, 'wb')
+        self.out_filename = out_file
+
+    def initialize(self):
+        super(ZipDumper, self).initialize()
+        self.out_file = open(self.out_filename, 'wb')
         self.zip_file = zipfile.ZipFile(self.out_file, 'w')
 
     def write_file_to_output(self, filename, path):
